@@ -315,6 +315,11 @@ def run(model, rep, tier):
                   f"map and delegation index are cloned from the same version under the same condition {conds(nn)}",
                   f"the delegation index is cloned from `{do}` under {conds(dn)} but the node map from `{no}` under {conds(nn)}: a replacement transaction starts with an empty map and the old cuts, "
                   "so names in the new content are flagged DELEGATION/GLUE by cuts that no longer exist", stmt="same-base")
+        base = no.rsplit(".", 1)[0]
+        bdefs = sorted({" ".join(src(a.value).split()) for a in ast.walk(wi.node) if isinstance(a, ast.Assign) and any(src(t_) == base for t_ in a.targets)})
+        rep.check(bdefs == ["zone._versions[-1]"], "R-20.2", wi.qualname, where(wi, nn.ast), "a non-replacement writer is a copy-on-write clone of the NEWEST version (`zone._versions[-1]`)",
+                  f"the copy-on-write base `{base}` is {bdefs}, not the newest version: with more than one retained version (an open reader, max_versions > 1) the writer starts from a stale snapshot "
+                  "and its commit silently drops everything committed since", stmt="newest-base")
         rep.check(bool(fresh_idx) and all(conds(x) != conds(dn) for x in fresh_idx), "R-20.2", wi.qualname, where(wi, wi.node), "a replacement writer starts with an empty delegation index",
                   "no arm gives a replacement writer an empty delegation index", stmt="fresh-index")
     rep.meta["explanation"] = (
@@ -334,6 +339,8 @@ def _blocks(fn):
 
 
 WITNESSES = [
+    {"id": "c20-writer-clones-oldest-version", "rule": "R-20.2", "file": "dns/btreezone.py", "expect": "fires",
+     "old": "            version = zone._versions[-1]", "new": "            version = zone._versions[0]"},
     {"id": "c20-is-origin-uses-zone-origin", "rule": "R-20.1", "file": "dns/btreezone.py", "expect": "fires",
      "old": "            return name == self.origin", "new": "            return name == self.zone.origin"},
     {"id": "c20-closest-encloser-negative-zero-slice", "rule": "R-20.4", "file": "dns/btreezone.py", "expect": "fires",
